@@ -338,7 +338,7 @@ func (fr *frame) eval1(v ssa.Value) Val {
 		if base.K == KPtr {
 			st := derefStruct(x.X.Type())
 			if st != nil {
-				return Val{K: KPtr, S: base.S + "." + st.Field(x.Field).Name()}
+				return Val{K: KPtr, S: base.S + fieldSuffix(st, x.Field)}
 			}
 		}
 		if base.K == KBot {
@@ -352,7 +352,10 @@ func (fr *frame) eval1(v ssa.Value) Val {
 		}
 		if base.K == KAgg {
 			if st, ok := x.X.Type().Underlying().(*types.Struct); ok {
-				suffix := "." + st.Field(x.Field).Name()
+				suffix := fieldSuffix(st, x.Field)
+				if suffix == "" {
+					return base // an embedded struct: the same cells under the same names
+				}
 				if isAggregate(x.Type()) {
 					sub := map[string]cell{}
 					for k, c := range base.Agg {
@@ -1740,12 +1743,7 @@ func typeAtSuffix(t types.Type, suffix string) types.Type {
 				}
 			}
 			name := rest[:end]
-			var ft types.Type
-			for i := 0; i < u.NumFields(); i++ {
-				if u.Field(i).Name() == name {
-					ft = u.Field(i).Type()
-				}
-			}
+			ft := fieldTypeThroughEmbedded(u, name, 0)
 			if ft == nil {
 				return nil
 			}
@@ -1761,4 +1759,71 @@ func typeAtSuffix(t types.Type, suffix string) types.Type {
 		}
 	}
 	return t
+}
+
+// fieldSuffix names field i of a struct in memory paths. A struct embedded by
+// value is transparent: its fields are named as the promoted fields they are
+// (p.pos, whether pos is declared in the parser or in an embedded cursor), so
+// that moving fields into an embedded helper struct does not rename memory.
+func fieldSuffix(st *types.Struct, i int) string {
+	f := st.Field(i)
+	if f.Embedded() {
+		if _, isStruct := f.Type().Underlying().(*types.Struct); isStruct {
+			if _, isPtr := f.Type().(*types.Pointer); !isPtr && !shadowed(st, i) {
+				return ""
+			}
+		}
+	}
+	return "." + f.Name()
+}
+
+// shadowed: a field of the embedded struct has the name of a field of the
+// outer struct (the paths would collide).
+func shadowed(st *types.Struct, i int) bool {
+	inner, _ := st.Field(i).Type().Underlying().(*types.Struct)
+	if inner == nil {
+		return false
+	}
+	for j := 0; j < st.NumFields(); j++ {
+		if j == i {
+			continue
+		}
+		for k := 0; k < inner.NumFields(); k++ {
+			if inner.Field(k).Name() == st.Field(j).Name() {
+				return true
+			}
+		}
+		// two embedded structs with a common field name
+		if other, _ := st.Field(j).Type().Underlying().(*types.Struct); other != nil && st.Field(j).Embedded() {
+			for k := 0; k < inner.NumFields(); k++ {
+				for l := 0; l < other.NumFields(); l++ {
+					if inner.Field(k).Name() == other.Field(l).Name() {
+						return true
+					}
+				}
+			}
+		}
+	}
+	return false
+}
+
+func fieldTypeThroughEmbedded(u *types.Struct, name string, depth int) types.Type {
+	for i := 0; i < u.NumFields(); i++ {
+		if u.Field(i).Name() == name && fieldSuffix(u, i) != "" {
+			return u.Field(i).Type()
+		}
+	}
+	if depth > 3 {
+		return nil
+	}
+	for i := 0; i < u.NumFields(); i++ {
+		if fieldSuffix(u, i) == "" {
+			if inner, ok := u.Field(i).Type().Underlying().(*types.Struct); ok {
+				if t := fieldTypeThroughEmbedded(inner, name, depth+1); t != nil {
+					return t
+				}
+			}
+		}
+	}
+	return nil
 }
